@@ -1437,8 +1437,16 @@ impl ProtocolState {
                 self.encoder.reset(packet, &encode_context)?;
             }
 
-            let packet = &self.operations.get(&self.current_operation.unwrap()).unwrap().packet;
+            let current_operation_id = self.current_operation.unwrap();
+            if !self.operations.contains_key(&current_operation_id) {
+                // the operation was completed (ack timeout, unexpected ack) while its packet was only
+                // partially written; the packet cannot be finished, so the connection must be dropped
+                error!("[{} ms] service_queue - partially written operation {} no longer exists", self.elapsed_time_ms, current_operation_id);
+                self.current_operation = None;
+                return Err(GneissError::new_internal_state_error("partially written operation no longer exists"));
+            }
 
+            let packet = &self.operations.get(&current_operation_id).unwrap().packet;
 
             let encode_result = self.encoder.encode(packet, context.to_socket)?;
             if encode_result == EncodeResult::Complete {
